@@ -794,3 +794,41 @@ pub fn gen_default_sets() -> Vec<Vec<TableDef>> {
     }
     out.into_iter().filter_map(|m| normalized_slice(&m).filter(|n| gener::loader_accepts(n))).collect()
 }
+
+// ------------------------------------------------------------------ relation-enum collisions (C16 / C17)
+/// Table names whose PascalCase form is empty or odd, each on a table that carries foreign keys whose relation enums
+/// collide: `owner_id` and `owner` to one table (both give `Owner`), a third one `owner-id`, and two composite FKs
+/// sharing their leading column ([org_id, user_id] / [org_id, team_id]) to one table.  Deterministic.
+pub const ODD_TABLE_NAMES: &[&str] = &["_", "__", "-", "_-_", "--", "2", "9x", "!", "_1", "a", "Self"];
+
+pub fn gen_relenum_sets() -> Vec<Vec<TableDef>> {
+    let mut out = vec![];
+    for n in ODD_TABLE_NAMES {
+        for variant in 0..3usize {
+            let user = base_table("user".into());
+            let mut pair = TableDef { name: "pair".into(), description: None, columns: vec![col("a", int(), false), col("b", int(), false)], constraints: vec![] };
+            pair.constraints.push(TableConstraint::PrimaryKey { auto_increment: false, columns: vec!["a".into(), "b".into()] });
+            let mut t = base_table(n.to_string());
+            let single: &[&str] = match variant {
+                0 => &["owner_id", "owner"],
+                1 => &["owner_id", "owner", "owner-id"],
+                _ => &[],
+            };
+            for c in single {
+                t.columns.push(col(c, int(), true));
+                add_fk1(&mut t, c, "user", "id");
+            }
+            if variant != 0 {
+                for c in ["org_id", "user_id", "team_id"] {
+                    t.columns.push(col(c, int(), true));
+                }
+                for second in ["user_id", "team_id"] {
+                    t.constraints.push(TableConstraint::ForeignKey { name: None, columns: vec!["org_id".into(), second.into()], ref_table: "pair".into(),
+                        ref_columns: vec!["a".into(), "b".into()], on_delete: None, on_update: None });
+                }
+            }
+            out.push(vec![user, pair, t]);
+        }
+    }
+    out.into_iter().filter_map(|m| normalized_slice(&m).filter(|x| gener::loader_accepts(x))).collect()
+}
